@@ -2,7 +2,11 @@
 
 package secp256k1
 
-import "gitlab.com/yawning/secp256k1-voi/internal/field"
+import (
+	"unsafe"
+
+	"gitlab.com/yawning/secp256k1-voi/internal/field"
+)
 
 // Verification-only accessors (added to a scratch copy of the tree by /verif;
 // never part of /repo).  Add-only: nothing here changes existing behaviour.
@@ -101,4 +105,54 @@ func VerifHugeTableEntry(i, j int) (*field.Element, *field.Element) {
 func VerifOddTableEntry(i, j int) (*field.Element, *field.Element) {
 	e := &generatorOddAffineTable[i][j]
 	return field.NewElementFrom(&e.x), field.NewElementFrom(&e.y)
+}
+
+// ---- raw memory access for the lookup oracles (C17 / C19)
+
+// VerifPointSize / VerifAffineSize are the strides of the two table types.
+func VerifPointSize() uintptr  { return unsafe.Sizeof(Point{}) }
+func VerifAffineSize() uintptr { return unsafe.Sizeof(affinePoint{}) }
+
+// VerifLookupProjectiveAt runs the build's lookup on a table placed at an arbitrary address.
+func VerifLookupProjectiveAt(addr unsafe.Pointer, out *Point, idx uint64) {
+	lookupProjectivePoint((*projectivePointMultTable)(addr), out, idx)
+}
+func VerifLookupAffineAt(addr unsafe.Pointer, out *VerifAffinePoint, idx uint64) {
+	lookupAffinePoint((*affinePointMultTable)(addr), out, idx)
+}
+func VerifSelectAndAddProjectiveAt(addr unsafe.Pointer, sum *Point, idx uint64, vartime bool) {
+	tbl := (*projectivePointMultTable)(addr)
+	if vartime {
+		tbl.SelectAndAddVartime(sum, idx)
+	} else {
+		tbl.SelectAndAdd(sum, idx)
+	}
+}
+func VerifSelectAndAddAffineAt(addr unsafe.Pointer, sum *Point, idx uint64) {
+	(*affinePointMultTable)(addr).SelectAndAdd(sum, idx)
+}
+
+// VerifPointImage / VerifSetPointImage read and write the raw memory image of a Point (coordinates in
+// Montgomery form, the validity flag and padding), for "writes only the coordinate bytes" checks.
+func VerifPointImage(p *Point) []byte {
+	b := make([]byte, unsafe.Sizeof(*p))
+	copy(b, unsafe.Slice((*byte)(unsafe.Pointer(p)), unsafe.Sizeof(*p)))
+	return b
+}
+func VerifSetPointImage(p *Point, img []byte) {
+	copy(unsafe.Slice((*byte)(unsafe.Pointer(p)), unsafe.Sizeof(*p)), img)
+}
+func VerifAffineImage(p *VerifAffinePoint) []byte {
+	b := make([]byte, unsafe.Sizeof(*p))
+	copy(b, unsafe.Slice((*byte)(unsafe.Pointer(p)), unsafe.Sizeof(*p)))
+	return b
+}
+func VerifSetAffineImage(p *VerifAffinePoint, img []byte) {
+	copy(unsafe.Slice((*byte)(unsafe.Pointer(p)), unsafe.Sizeof(*p)), img)
+}
+func VerifProjTableImage(t *VerifProjTable) []byte {
+	return unsafe.Slice((*byte)(unsafe.Pointer(t)), unsafe.Sizeof(*t))
+}
+func VerifAffineTableImage(t *VerifAffineTable) []byte {
+	return unsafe.Slice((*byte)(unsafe.Pointer(t)), unsafe.Sizeof(*t))
 }
